@@ -158,15 +158,19 @@ func m(k string) entry    { return entry{'m', keyIndex(k), ""} }
 // deepAlphabet is the reduced batch alphabet of the deep search: chosen so that histories
 // collide on the same keys (set / delete / re-create / merge of one key across batches, the
 // same key twice in one batch, neighbours around the 0xff boundaries, empty values).
-func deepAlphabet() [][]entry {
-	return [][]entry{
-		{s("a", "1")}, {s("a", "")}, {s("a\x00", "1")}, {s("a\xff", "1")}, {s("a\xffb", "2")}, {s("b", "1")}, {s("\xff", "1")},
-		{d("a")}, {d("a\xff")}, {d("b")}, {d("\xff")},
-		{m("a")}, {m("b")},
+func deepAlphabet(quick bool) [][]entry {
+	al := [][]entry{
+		{s("a", "1")}, {s("a", "")}, {s("a\xff", "1")}, {s("a\xffb", "2")}, {s("b", "1")}, {s("\xff", "1")},
+		{d("a")}, {d("a\xff")}, {d("b")},
+		{m("b")},
 		{s("a", "1"), s("a", "2")}, {d("a"), s("a", "1")}, {s("a", "1"), d("a")},
 		{s("b", "2"), s("a\xff", "")}, {d("a\xff"), s("a\xffb", "1")}, {m("b"), m("b")},
-		{m("a"), s("\xff", "")}, {d("b"), d("\xff")},
+		{m("a"), s("\xff", "")},
 	}
+	if !quick {
+		al = append(al, [][]entry{{s("a\x00", "1")}, {d("\xff")}, {m("a")}, {d("b"), d("\xff")}}...)
+	}
+	return al
 }
 
 // ---------------------------------------------------------------------------------------------
@@ -634,6 +638,82 @@ type storeCfg struct {
 	ctor string
 	disk bool
 	cfg  func(dir string) map[string]interface{}
+	// ex: batches are created with NewBatchEx and every key and value is placed in the buffer it
+	// returns, the way upsidedown's batchRows does (a separate code path in the moss adapter)
+	ex bool
+}
+
+const exSuffix = "+NewBatchEx"
+
+func (sc storeCfg) label() string {
+	if sc.ex {
+		return sc.name + exSuffix
+	}
+	return sc.name
+}
+
+// newBatch fills a batch with the entries, through NewBatch or through NewBatchEx.
+func newBatch(w store.KVWriter, es []entry, ex bool) (store.KVBatch, error) {
+	if !ex {
+		b := w.NewBatch()
+		if b == nil {
+			return nil, fmt.Errorf("NewBatch returned nil")
+		}
+		for _, e := range es {
+			switch e.Kind {
+			case 's':
+				b.Set([]byte(keys[e.K]), []byte(e.V))
+			case 'd':
+				b.Delete([]byte(keys[e.K]))
+			case 'm':
+				b.Merge([]byte(keys[e.K]), []byte("1"))
+			}
+		}
+		return b, nil
+	}
+	var o store.KVBatchOptions
+	for _, e := range es {
+		switch e.Kind {
+		case 's':
+			o.NumSets++
+			o.TotalBytes += len(keys[e.K]) + len(e.V)
+		case 'd':
+			o.NumDeletes++
+			o.TotalBytes += len(keys[e.K])
+		case 'm':
+			o.NumMerges++
+			o.TotalBytes += 2 * (len(keys[e.K]) + 1) // as upsidedown: the adapter may copy merge operands into the buffer again
+		}
+	}
+	buf, b, err := w.NewBatchEx(o)
+	if err != nil {
+		return nil, err
+	}
+	if b == nil {
+		return nil, fmt.Errorf("NewBatchEx returned a nil batch")
+	}
+	if len(buf) < o.TotalBytes {
+		return nil, fmt.Errorf("NewBatchEx returned %d bytes, %d requested", len(buf), o.TotalBytes)
+	}
+	put := func(x string) []byte {
+		n := copy(buf, x)
+		r := buf[:n] // capacity must reach the end of the buffer: moss locates the key by cap()
+		buf = buf[n:]
+		return r
+	}
+	for _, e := range es {
+		switch e.Kind {
+		case 's':
+			k := put(keys[e.K])
+			b.Set(k, put(e.V))
+		case 'd':
+			b.Delete(put(keys[e.K]))
+		case 'm':
+			k := put(keys[e.K])
+			b.Merge(k, put("1"))
+		}
+	}
+	return b, nil
 }
 
 const boltMmap = 16 << 20
@@ -643,18 +723,18 @@ const boltMmap = 16 << 20
 const ldbWriteBuffer = 64 << 10
 
 var stores = []storeCfg{
-	{"gtreap", "gtreap", false, func(string) map[string]interface{} { return map[string]interface{}{"path": ""} }},
-	{"moss", "moss", false, func(string) map[string]interface{} { return map[string]interface{}{} }},
-	{"metrics(gtreap)", "metrics", false, func(string) map[string]interface{} {
+	{name: "gtreap", ctor: "gtreap", cfg: func(string) map[string]interface{} { return map[string]interface{}{"path": ""} }},
+	{name: "moss", ctor: "moss", cfg: func(string) map[string]interface{} { return map[string]interface{}{} }},
+	{name: "metrics(gtreap)", ctor: "metrics", cfg: func(string) map[string]interface{} {
 		return map[string]interface{}{"kvStoreName_actual": "gtreap", "path": ""}
 	}},
-	{"boltdb", "boltdb", true, func(dir string) map[string]interface{} {
+	{name: "boltdb", ctor: "boltdb", disk: true, cfg: func(dir string) map[string]interface{} {
 		return map[string]interface{}{"path": filepath.Join(dir, "s.bolt"), "initialMmapSize": boltMmap}
 	}},
-	{"goleveldb", "goleveldb", true, func(dir string) map[string]interface{} {
+	{name: "goleveldb", ctor: "goleveldb", disk: true, cfg: func(dir string) map[string]interface{} {
 		return map[string]interface{}{"path": filepath.Join(dir, "s.ldb"), "create_if_missing": true, "write_buffer_size": float64(ldbWriteBuffer)}
 	}},
-	{"metrics(boltdb)", "metrics", true, func(dir string) map[string]interface{} {
+	{name: "metrics(boltdb)", ctor: "metrics", disk: true, cfg: func(dir string) map[string]interface{} {
 		return map[string]interface{}{"kvStoreName_actual": "boltdb", "path": filepath.Join(dir, "s.bolt"), "initialMmapSize": boltMmap}
 	}},
 }
@@ -664,6 +744,7 @@ type flight struct {
 	start time.Time
 	sname string
 	path  []op
+	phase atomic.Pointer[string] // the store call in progress
 }
 
 type checker struct {
@@ -692,16 +773,22 @@ func (c *checker) monitor() {
 		if hung != nil {
 			held := 0
 			for _, o := range hung.path {
-				if o.Kind == 'o' {
+				switch o.Kind {
+				case 'o':
 					held++
+				case 'c':
+					held--
 				}
 			}
-			pat := "no-reader-open"
-			if held > 0 {
-				pat = "write-or-close-with-reader-open"
+			pat := "unknown"
+			if p := hung.phase.Load(); p != nil {
+				pat = *p
 			}
-			c.r.Violation(fmt.Sprintf("%s:does-not-return:%s", hung.sname, pat),
-				fmt.Sprintf("%s: history %s did not complete within %v (a store call blocks)", hung.sname, pathString(hung.path), hangAfter),
+			if held > 0 {
+				pat += "+reader-open"
+			}
+			c.r.Violation(fmt.Sprintf("%s:does-not-return:%s", strings.TrimSuffix(hung.sname, exSuffix), pat),
+				fmt.Sprintf("%s: history %s did not complete within %v (blocked in: %s)", hung.sname, pathString(hung.path), hangAfter, pat),
 				replayOf(hung.sname, hung.path, "", obs{}, nil, nil))
 			c.r.Cap("a store call did not return; run ended by the watchdog")
 			os.RemoveAll(c.root)
@@ -730,7 +817,7 @@ func goSnippet(sname string, path []op, reader string, o obs) string {
 	var b strings.Builder
 	sc := storeCfg{}
 	for _, c := range stores {
-		if c.name == sname {
+		if c.name == strings.TrimSuffix(sname, exSuffix) {
 			sc = c
 		}
 	}
@@ -740,6 +827,9 @@ func goSnippet(sname string, path []op, reader string, o obs) string {
 	b.WriteString("// counterMergeOperator: store.MergeOperator whose FullMerge/PartialMerge add decimal counters (\"\" = 0)\n")
 	fmt.Fprintf(&b, "s, _ := registry.KVStoreConstructorByName(%q)(counterMergeOperator{}, %#v)\n", sc.ctor, sc.cfg("DIR"))
 	b.WriteString("w, _ := s.Writer()\n")
+	if strings.HasSuffix(sname, exSuffix) {
+		b.WriteString("// every batch below is created with w.NewBatchEx(KVBatchOptions{TotalBytes, NumSets, NumDeletes, NumMerges}) and all keys/values are sub-slices of the buffer it returns (TotalBytes counts merge operands twice, as upsidedown.batchRows does)\n")
+	}
 	n := 0
 	var open []string
 	for pi, p := range path {
@@ -793,8 +883,9 @@ type execResult struct {
 // exec replays path on a fresh store instance and checks all observations after its last step.
 func (c *checker) exec(sc storeCfg, path []op) (res execResult) {
 	id := c.seq.Add(1)
+	fl := &flight{start: time.Now(), sname: sc.label(), path: path}
 	c.mu.Lock()
-	c.inflight[id] = &flight{start: time.Now(), sname: sc.name, path: path}
+	c.inflight[id] = fl
 	c.mu.Unlock()
 	defer func() {
 		c.mu.Lock()
@@ -817,7 +908,9 @@ func (c *checker) exec(sc storeCfg, path []op) (res execResult) {
 		}
 		defer os.RemoveAll(dir)
 	}
-	opName := "construct"
+	opName := ""
+	phase := func(n string) { opName = n; fl.phase.Store(&n) }
+	phase("construct")
 	var st store.KVStore
 	var w store.KVWriter
 	type openRdr struct {
@@ -831,48 +924,42 @@ func (c *checker) exec(sc storeCfg, path []op) (res execResult) {
 		var err error
 		st, err = registry.KVStoreConstructorByName(sc.ctor)(ctrMO{}, sc.cfg(dir))
 		if err != nil {
-			add(sc.name+":error:construct", fmt.Sprintf("%s: constructor: %v", sc.name, err), replayOf(sc.name, nil, "", obs{}, nil, nil))
+			add(sc.name+":error:construct", fmt.Sprintf("%s: constructor: %v", sc.label(), err), replayOf(sc.label(), nil, "", obs{}, nil, nil))
 			st = nil
 			return
 		}
-		opName = "writer"
+		phase("writer")
 		w, err = st.Writer()
 		if err != nil {
-			add(sc.name+":error:writer", fmt.Sprintf("%s: Writer(): %v", sc.name, err), replayOf(sc.name, nil, "", obs{}, nil, nil))
+			add(sc.name+":error:writer", fmt.Sprintf("%s: Writer(): %v", sc.label(), err), replayOf(sc.label(), nil, "", obs{}, nil, nil))
 			return
 		}
 		for i, o := range path {
 			switch o.Kind {
 			case 'b':
-				opName = "batch"
-				b := w.NewBatch()
-				for _, e := range o.B {
-					switch e.Kind {
-					case 's':
-						b.Set([]byte(keys[e.K]), []byte(e.V))
-					case 'd':
-						b.Delete([]byte(keys[e.K]))
-					case 'm':
-						b.Merge([]byte(keys[e.K]), []byte("1"))
-					}
+				phase("batch")
+				b, err := newBatch(w, o.B, sc.ex)
+				if err != nil {
+					add(sc.name+":error:new-batch", fmt.Sprintf("%s: after %s: %v", sc.label(), pathString(path[:i+1]), err), replayOf(sc.label(), path[:i+1], "", obs{}, nil, nil))
+					return
 				}
 				if err := w.ExecuteBatch(b); err != nil {
-					add(sc.name+":error:execute-batch", fmt.Sprintf("%s: after %s: ExecuteBatch: %v", sc.name, pathString(path[:i+1]), err), replayOf(sc.name, path[:i+1], "", obs{}, nil, nil))
+					add(sc.name+":error:execute-batch", fmt.Sprintf("%s: after %s: ExecuteBatch: %v", sc.label(), pathString(path[:i+1]), err), replayOf(sc.label(), path[:i+1], "", obs{}, nil, nil))
 				}
 				_ = b.Close()
 				cur = cur.apply(o.B)
 			case 'o':
-				opName = "open-reader"
+				phase("open-reader")
 				rd, err := st.Reader()
 				if err != nil {
-					add(sc.name+":error:open-reader", fmt.Sprintf("%s: after %s: Reader(): %v", sc.name, pathString(path[:i+1]), err), replayOf(sc.name, path[:i+1], "", obs{}, nil, nil))
+					add(sc.name+":error:open-reader", fmt.Sprintf("%s: after %s: Reader(): %v", sc.label(), pathString(path[:i+1]), err), replayOf(sc.label(), path[:i+1], "", obs{}, nil, nil))
 					return
 				}
 				open = append(open, openRdr{rd, i, cur})
 			case 'c':
-				opName = "close-reader"
+				phase("close-reader")
 				if err := open[o.R].rd.Close(); err != nil {
-					add(sc.name+":error:close-reader", fmt.Sprintf("%s: after %s: reader Close: %v", sc.name, pathString(path[:i+1]), err), replayOf(sc.name, path[:i+1], "", obs{}, nil, nil))
+					add(sc.name+":error:close-reader", fmt.Sprintf("%s: after %s: reader Close: %v", sc.label(), pathString(path[:i+1]), err), replayOf(sc.label(), path[:i+1], "", obs{}, nil, nil))
 				}
 				open = append(open[:o.R:o.R], open[o.R+1:]...)
 			}
@@ -892,29 +979,29 @@ func (c *checker) exec(sc storeCfg, path []op) (res execResult) {
 					if strings.HasPrefix(site, "upsidedown_store_api.") {
 						cls = fmt.Sprintf("store_api:%s:panic@%s", o.kindName(), site) // shared helper, same for every adapter
 					}
-					add(cls, fmt.Sprintf("%s: after %s: %s reader: %s panics: %v @ %s", sc.name, pathString(path), tag, o, pv, mc.TrimStack(stack)), replayOf(sc.name, path, tag, o, nil, want))
+					add(cls, fmt.Sprintf("%s: after %s: %s reader: %s panics: %v @ %s", sc.label(), pathString(path), tag, o, pv, mc.TrimStack(stack)), replayOf(sc.label(), path, tag, o, nil, want))
 					continue
 				}
 				if special == "" && sameKVs(got, want) {
 					continue
 				}
-				det := fmt.Sprintf("%s: after %s: %s reader: %s = %s, want %s", sc.name, pathString(path), tag, o, kvString(got), kvString(want))
+				det := fmt.Sprintf("%s: after %s: %s reader: %s = %s, want %s", sc.label(), pathString(path), tag, o, kvString(got), kvString(want))
 				if special != "" {
 					det += " (" + special + ")"
 				}
 				for _, cls := range classify(sc.name, view, held, snap, cur, o, got, want, special) {
-					add(cls, det, replayOf(sc.name, path, tag, o, got, want))
+					add(cls, det, replayOf(sc.label(), path, tag, o, got, want))
 				}
 			}
 		}
-		opName = "observe"
+		phase("observe")
 		fr, err := st.Reader()
 		if err != nil {
-			add(sc.name+":error:open-reader", fmt.Sprintf("%s: after %s: Reader(): %v", sc.name, pathString(path), err), replayOf(sc.name, path, "", obs{}, nil, nil))
+			add(sc.name+":error:open-reader", fmt.Sprintf("%s: after %s: Reader(): %v", sc.label(), pathString(path), err), replayOf(sc.label(), path, "", obs{}, nil, nil))
 		} else {
 			verify(fr, "fresh", path, cur)
 			if err := fr.Close(); err != nil {
-				add(sc.name+":error:close-reader", fmt.Sprintf("%s: after %s: fresh reader Close: %v", sc.name, pathString(path), err), replayOf(sc.name, path, "", obs{}, nil, nil))
+				add(sc.name+":error:close-reader", fmt.Sprintf("%s: after %s: fresh reader Close: %v", sc.label(), pathString(path), err), replayOf(sc.label(), path, "", obs{}, nil, nil))
 			}
 		}
 		for i, or := range open {
@@ -922,24 +1009,26 @@ func (c *checker) exec(sc storeCfg, path []op) (res execResult) {
 		}
 	})
 	if pv != nil {
-		add(fmt.Sprintf("%s:%s:panic@%s", sc.name, opName, panicSite(stack)), fmt.Sprintf("%s: history %s: %s panics: %v @ %s", sc.name, pathString(path), opName, pv, mc.TrimStack(stack)), replayOf(sc.name, path, "", obs{}, nil, nil))
+		add(fmt.Sprintf("%s:%s:panic@%s", sc.name, opName, panicSite(stack)), fmt.Sprintf("%s: history %s: %s panics: %v @ %s", sc.label(), pathString(path), opName, pv, mc.TrimStack(stack)), replayOf(sc.label(), path, "", obs{}, nil, nil))
 	}
 	// teardown: readers first (bbolt's Close waits for open read transactions)
 	pv, stack = mc.Try(func() {
+		phase("teardown:close-readers")
 		for _, or := range open {
 			_ = or.rd.Close()
 		}
 		if w != nil {
 			_ = w.Close()
 		}
+		phase("teardown:close-store")
 		if st != nil {
 			if err := st.Close(); err != nil {
-				add(sc.name+":error:close-store", fmt.Sprintf("%s: history %s: store Close: %v", sc.name, pathString(path), err), replayOf(sc.name, path, "", obs{}, nil, nil))
+				add(sc.name+":error:close-store", fmt.Sprintf("%s: history %s: store Close: %v", sc.label(), pathString(path), err), replayOf(sc.label(), path, "", obs{}, nil, nil))
 			}
 		}
 	})
 	if pv != nil {
-		add(fmt.Sprintf("%s:close:panic@%s", sc.name, panicSite(stack)), fmt.Sprintf("%s: history %s: teardown panics: %v @ %s", sc.name, pathString(path), pv, mc.TrimStack(stack)), replayOf(sc.name, path, "", obs{}, nil, nil))
+		add(fmt.Sprintf("%s:close:panic@%s", sc.name, panicSite(stack)), fmt.Sprintf("%s: history %s: teardown panics: %v @ %s", sc.label(), pathString(path), pv, mc.TrimStack(stack)), replayOf(sc.label(), path, "", obs{}, nil, nil))
 	}
 	// vacuity bookkeeping (model side)
 	stale := 0
@@ -1009,7 +1098,7 @@ func (c *checker) bfs(sc storeCfg, sn scenario) {
 	r := c.r
 	dump := os.Getenv("VERIF_C15_DUMP") // debugging aid: print every finding whose class contains this text
 	t0 := time.Now()
-	defer func() { r.Note(fmt.Sprintf("wall_s:%s:%s", sn.name, sc.name), fmt.Sprintf("%.1f", time.Since(t0).Seconds())) }()
+	defer func() { r.Note(fmt.Sprintf("wall_s:%s:%s", sn.name, sc.label()), fmt.Sprintf("%.1f", time.Since(t0).Seconds())) }()
 	init := &state{cur: emptyContent()}
 	seen := map[string]bool{init.canon(): true}
 	r.State(1)
@@ -1081,12 +1170,12 @@ func (c *checker) bfs(sc storeCfg, sn scenario) {
 		for k, v := range tot {
 			r.Count(k, v)
 		}
-		r.Count(fmt.Sprintf("transitions:%s:%s", sn.name, sc.name), int64(done))
+		r.Count(fmt.Sprintf("transitions:%s:%s", sn.name, sc.label()), int64(done))
 		if done < len(trs) {
-			r.Cap(fmt.Sprintf("%s/%s: level %d of %d incomplete (%d of %d transitions)", sc.name, sn.name, level, depth, done, len(trs)))
+			r.Cap(fmt.Sprintf("%s/%s: level %d of %d incomplete (%d of %d transitions)", sc.label(), sn.name, level, depth, done, len(trs)))
 			return
 		}
-		r.Note(fmt.Sprintf("completed:%s:%s", sn.name, sc.name), fmt.Sprintf("depth %d", level))
+		r.Note(fmt.Sprintf("completed:%s:%s", sn.name, sc.label()), fmt.Sprintf("depth %d", level))
 		frontier = next
 	}
 }
@@ -1132,6 +1221,18 @@ func (c *checker) indexOverMoss() {
 	r.Note("index_over_moss", fmt.Sprintf("%d delete scripts × %d queries", len(scripts), len(qs)))
 	r.ParFor(len(scripts), 0, func(si int) {
 		sc := scripts[si]
+		fid := c.seq.Add(1)
+		fl := &flight{start: time.Now(), sname: "index-over-moss"}
+		ph := fmt.Sprintf("script delete %v reindex %v", sc.del, sc.reindex)
+		fl.phase.Store(&ph)
+		c.mu.Lock()
+		c.inflight[fid] = fl
+		c.mu.Unlock()
+		defer func() {
+			c.mu.Lock()
+			delete(c.inflight, fid)
+			c.mu.Unlock()
+		}()
 		build := func(kv string) bleve.Index {
 			idx, err := bleve.NewUsing("", gen.TextMapping(), upsidedown.Name, kv, nil)
 			if err != nil {
@@ -1242,17 +1343,17 @@ func Run(r *mc.Run) {
 	if r.Quick() {
 		scenarios = []scenario{
 			{name: "wide1", alphabet: wideAlphabet(0), depth: 1, wrapperDepth: 1, maxOpen: 1},
-			{name: "deep", alphabet: deepAlphabet(), depth: 3, wrapperDepth: 2, maxOpen: 2},
+			{name: "deep", alphabet: deepAlphabet(true), depth: 3, wrapperDepth: 2, maxOpen: 2},
 		}
 	} else {
 		scenarios = []scenario{
 			{name: "wide1", alphabet: wideAlphabet(2), depth: 1, wrapperDepth: 1, maxOpen: 1},
 			{name: "wide2", alphabet: wideAlphabet(0), depth: 2, wrapperDepth: 0, maxOpen: 1},
-			{name: "deep", alphabet: deepAlphabet(), depth: 4, wrapperDepth: 3, maxOpen: 2},
+			{name: "deep", alphabet: deepAlphabet(false), depth: 4, wrapperDepth: 3, maxOpen: 2},
 		}
 	}
 
-	r.Rule("E1 breadth-first search over operation sequences on each real store (boltdb, goleveldb, gtreap, moss, metrics over gtreap and over boltdb): operations = execute a batch of ≤ 2 entries from {Set, Delete, Merge(+1)} over keys {a, a\\x00, a\\xff, a\\xffb, b, \\xff} and values {\"\",1,2}, open a reader, close a reader; every transition replays its path on a fresh store instance and then checks, on a fresh reader and on every still-open reader (against the model as of its creation), Get of every key and an absent one, MultiGet, PrefixIterator for 5 prefixes and RangeIterator for all 49 (start,end) pairs incl. nil bounds, each plain and after Seek to every key, as exact key/value sequences; states are merged on (per key: never written / deleted / value; multiset of open snapshot contents). Searches per store: wide1 = every batch of the alphabet from the empty store (quick: pairs thinned), wide2 (thorough) = depth 2 over the thinned pair alphabet, deep = depth 3 → 4 over a 21-batch alphabet that makes histories collide on the same keys, with up to 2 open readers. An outcome is (live keys, open readers, readers behind later writes)")
+	r.Rule("E1 breadth-first search over operation sequences on each real store (boltdb, goleveldb, gtreap, moss, metrics over gtreap and over boltdb): operations = execute a batch of ≤ 2 entries from {Set, Delete, Merge(+1)} over keys {a, a\\x00, a\\xff, a\\xffb, b, \\xff} and values {\"\",1,2}, open a reader, close a reader; every transition replays its path on a fresh store instance and then checks, on a fresh reader and on every still-open reader (against the model as of its creation), Get of every key and an absent one, MultiGet, PrefixIterator for 5 prefixes and RangeIterator for all 49 (start,end) pairs incl. nil bounds, each plain and after Seek to every key, as exact key/value sequences; states are merged on (per key: never written / deleted / value; multiset of open snapshot contents). Searches per store: wide1 = every batch of the alphabet from the empty store (quick: pairs thinned), wide2 (thorough) = depth 2 over the thinned pair alphabet, deep = depth 3 → 4 over a 17 → 21-batch alphabet that makes histories collide on the same keys, with up to 2 open readers. An outcome is (live keys, open readers, readers behind later writes)")
 	r.Assume("boltdb is opened with the adapter's initialMmapSize option = 16 MiB (a bbolt write that must grow the mmap waits for open read transactions; isolation, not progress, is claimed)",
 		"goleveldb is opened with the adapter's write_buffer_size option = 64 KiB (the default 4 MiB buffer is allocated and zeroed on every open)",
 		"inside one batch a key has either merges or sets/deletes, never both (adapter-defined, unused by upsidedown)",
@@ -1260,6 +1361,7 @@ func Run(r *mc.Run) {
 		"moss is used in memory (no lower-level store) with the adapter's default collection options",
 		"the metrics wrapper is searched one level less deep than the stores it wraps (it only delegates)",
 		"merge operator: decimal counter (FullMerge and PartialMerge both supported)",
+		"batches are built through NewBatch, and through NewBatchEx with keys/values placed in the returned buffer as upsidedown does (all searches for moss, where it is a separate code path; thorough wide1 for the others)",
 		"supplementary index-level pass: upsidedown over moss is compared with upsidedown over gtreap (same history, same queries), not with the reference query evaluator — query semantics are C02's subject")
 	for _, sn := range scenarios {
 		r.Note("alphabet:"+sn.name, fmt.Sprintf("%d batches + open/close reader, depth %d (metrics wrapper %d), ≤ %d open readers", len(sn.alphabet), sn.depth, sn.wrapperDepth, sn.maxOpen))
@@ -1268,7 +1370,7 @@ func Run(r *mc.Run) {
 	r.Sample(map[string]any{"store": "moss", "history": pathString([]op{{Kind: 'b', B: []entry{s("a", "1")}}, {Kind: 'o'}, {Kind: 'b', B: []entry{d("a"), s("b", "2")}}}), "checked": fmt.Sprintf("fresh reader against {b=2}; held#0 against {a=1}; %d observations each", len(c.obsList))})
 	so := obs{kind: 'r', a: "a\x00", b: "b", hasSeek: true, seek: "a"}
 	r.Sample(map[string]any{"observation": so.String(), "on": "{a=1, a\\xff=\"\", b=2}", "want": kvString(expect(so, emptyContent().apply([]entry{s("a", "1"), s("a\xff", "")}).apply([]entry{s("b", "2")})))})
-	r.Sample(map[string]any{"wide_alphabet_example": op{Kind: 'b', B: scenarios[0].alphabet[len(scenarios[0].alphabet)/2]}.String(), "deep_alphabet_example": op{Kind: 'b', B: deepAlphabet()[14]}.String()})
+	r.Sample(map[string]any{"wide_alphabet_example": op{Kind: 'b', B: scenarios[0].alphabet[len(scenarios[0].alphabet)/2]}.String(), "deep_alphabet_example": op{Kind: 'b', B: deepAlphabet(true)[11]}.String()})
 
 	only := os.Getenv("VERIF_C15_STORE")
 	for _, sn := range scenarios {
@@ -1276,11 +1378,19 @@ func Run(r *mc.Run) {
 			if only != "" && only != sc.name {
 				continue
 			}
-			if r.Expired() {
-				r.Cap("deadline before " + sc.name + "/" + sn.name)
-				return
+			for _, ex := range []bool{false, true} {
+				// NewBatchEx: a code path of its own in the moss adapter (searched everywhere);
+				// the other adapters only allocate the buffer (searched in wide1)
+				if ex && sc.ctor != "moss" && (sn.name != "wide1" || r.Quick()) {
+					continue
+				}
+				if r.Expired() {
+					r.Cap("deadline before " + sc.name + "/" + sn.name)
+					return
+				}
+				sc.ex = ex
+				c.bfs(sc, sn)
 			}
-			c.bfs(sc, sn)
 		}
 	}
 	if only == "" || only == "index" {
